@@ -239,15 +239,11 @@ func c28(r *core.Run) {
 		// (none needed on the pinned tree: the two documented exceptions of the property propagate the error value
 		// to their caller, which turns it into the invalid-key / failed-deployment result)
 	}
-	isHost := isHostCallee(host)
-	total := 0
-	for _, fn := range w.SrcFuncs() {
-		if fn.Parent() != nil {
-			continue
-		}
-		if core.RecvName0(fn) == "ExternalInterface" || core.RecvName0(fn) == "EmptyRuntimeInterface" {
-			continue
-		}
+	isHost0 := isHostCallee(host)
+	// carriers: module functions that return an error derived from a host call (wrappers), to a fixpoint
+	carriers := map[*types.Func]bool{}
+	isHost := func(o *types.Func) bool { return o != nil && (isHost0(o) || carriers[o.Origin()]) }
+	hostSites := func(fn *ssa.Function) ([]ssa.CallInstruction, map[ssa.CallInstruction]string) {
 		var sites []ssa.CallInstruction
 		names := map[ssa.CallInstruction]string{}
 		for _, c := range core.Calls(fn, true) {
@@ -279,6 +275,51 @@ func c28(r *core.Run) {
 				names[c] = "func-value:" + strings.Join(hn, "|")
 			}
 		}
+		return sites, names
+	}
+	for round := 0; round < 6; round++ {
+		added := 0
+		for _, fn := range w.SrcFuncs() {
+			if fn.Parent() != nil {
+				continue
+			}
+			fo, _ := fn.Object().(*types.Func)
+			if fo == nil || carriers[fo] || !sigReturnsError(fo.Type().(*types.Signature)) {
+				continue
+			}
+			if rn := core.RecvName0(fn); rn == "ExternalInterface" || rn == "EmptyRuntimeInterface" {
+				continue
+			}
+			cs, _ := hostSites(fn)
+			for _, c := range cs {
+				fl := core.FollowErr(c)
+				ret := false
+				for _, sk := range fl.Sinks {
+					if sk == "return" {
+						ret = true
+					}
+				}
+				if ret {
+					carriers[fo] = true
+					added++
+					break
+				}
+			}
+		}
+		if added == 0 {
+			break
+		}
+	}
+	r.Note("host-error carriers inferred: %d", len(carriers))
+	total := 0
+	for _, fn := range w.SrcFuncs() {
+		if fn.Parent() != nil {
+			continue
+		}
+		if core.RecvName0(fn) == "ExternalInterface" || core.RecvName0(fn) == "EmptyRuntimeInterface" {
+			continue
+		}
+		sites, names := hostSites(fn)
 		for _, c := range sites {
 			total++
 			key := core.SSAKey(fn) + " -> " + names[c]
